@@ -111,6 +111,40 @@ def gthRec (n : Nat) : Nat → Nat → M α → List α
       let xs := gthRec n fuel (k + 1) A'
       dotCol A' k xs :: xs
 
+/-! ### copy semantics: what the caller's array holds after the call (gth_solve.py:58-60)
+
+  `copy = copy_if_needed if overwrite else True; A1 = np.array(A, dtype=float, copy=copy, order='C')`.
+  With `overwrite=False` the routine always works on a copy. With `overwrite=True` NumPy returns the
+  argument itself — no copy — exactly when it already is an `ndarray` (subclasses such as `np.matrix`
+  included: a base-class view of the same memory) of dtype float64 in C-contiguous layout; in every
+  other case (list / tuple, other dtype, F-order, strided or negative-stride view) a converted copy
+  is made and the argument stays as it was. Both twins then overwrite `A1` with the reduced matrix. -/
+
+/-- how the argument was passed -/
+structure ArgForm where
+  ndarray : Bool
+  float64 : Bool
+  cContig : Bool
+
+/-- the routine works on the caller's memory -/
+def worksInPlace (overwrite : Bool) (f : ArgForm) : Bool :=
+  overwrite && f.ndarray && f.float64 && f.cContig
+
+/-- contents of the caller's matrix after `gth_solve(A, overwrite=…, use_jit=…)` -/
+def argAfter (n : Nat) (A : M α) (overwrite : Bool) (f : ArgForm) : M α :=
+  if worksInPlace overwrite f then (reduce n (n - 1) 0 A).1 else A
+
+/-- one call: the returned vector and the state in which the argument is left -/
+def gthCall (n : Nat) (A : M α) (overwrite : Bool) (f : ArgForm) : List α × M α :=
+  (gthSolve n A, argAfter n A overwrite f)
+
+/-- a history of `r` calls with the same options on the same array object: the vector returned by
+    the last call and the final contents of the array (`r = 0`: no call, empty vector) -/
+def gthCalls (n : Nat) (overwrite : Bool) (f : ArgForm) : Nat → M α → List α × M α
+  | 0, A => ([], A)
+  | 1, A => gthCall n A overwrite f
+  | r + 2, A => gthCalls n overwrite f (r + 1) (argAfter n A overwrite f)
+
 /-! ### the same algorithm with the evaluation order of its sums and dot products left open
 
   `gth_solve` contains three kinds of multi-term operations: the pivot-row sum `np.sum(A[k,k+1:n])`,
@@ -301,6 +335,18 @@ def handle (toks : List String) : String :=
             " q=" ++ showMat showRat (dq.map (·.2)) ++
             " closed=" ++ showBool (dq.all fun (C, _) => closedB n Mq C)
     | _, _, _ => "bad-op"
+  | "gthow" :: r =>
+    -- gthow n=<n> ow=<0|1> nd=<0|1> f64=<0|1> cc=<0|1> reps=<r> A=<rows of doubles>
+    --   -> x=<last result, Float bits> A=<final contents of the caller's array, Float bits>
+    match kvNat r "n", kvNat r "ow", kvNat r "nd", kvNat r "f64", kvNat r "cc", kvNat r "reps", kvFloatMat r "A" with
+    | some n, some ow, some nd, some f64, some cc, some reps, some Af =>
+      if n = 0 || reps = 0 || ow > 1 || nd > 1 || f64 > 1 || cc > 1 then "bad-op"
+      else if !(isSquare n Af) then "ERR:ValueError"
+      else
+        let res := gthCalls n (ow = 1) ⟨nd = 1, f64 = 1, cc = 1⟩ reps (M.ofRows Af : M Float)
+        let Aout := M.tab n n fun i j => res.2.get i j
+        "x=" ++ showList showFloatBits res.1 ++ " A=" ++ showMat showFloatBits Aout.toRows
+    | _, _, _, _, _, _, _ => "bad-op"
   | "ebound" :: r =>
     match kvNat r "n" with
     | some n => if n = 0 then "bad-op" else toString (errBound n)
